@@ -119,6 +119,31 @@ func c17Cases(thorough bool) []c17Case {
 			}
 		}
 	}
+	// the budget is used up (exactly, almost, just over) by an earlier stratum or by the facts in the program text,
+	// and a later stratum joins the large relation: the limit binds every stratum, not only the first
+	for _, l := range []int{1, 2, 3, 4, 5, 8} {
+		for _, k := range []int{l - 1, l, l + 1} {
+			if k < 1 {
+				continue
+			}
+			seed := append([]string{}, big...)
+			var facts string
+			for i := 0; i < k; i++ {
+				seed = append(seed, fmt.Sprintf("q0(%d)", i))
+				facts += fmt.Sprintf("s(%d).\n", i)
+			}
+			for _, p := range []c17Shape{
+				{fmt.Sprintf("stratum-of-%d-then-join-of-large-relation", k), "s(X) :- q0(X).\nj(X,Y,Z) :- s(X), n0(Y), n0(Z).\n", 2, false},
+				{fmt.Sprintf("two-strata-of-%d-then-join-of-large-relation", k), "s(X) :- q0(X).\nt(X) :- s(X), !n0(X).\nj(Y,Z) :- n0(Y), n0(Z), !t(Y).\n", 3, false},
+				{fmt.Sprintf("%d-program-facts-then-join-of-large-relation", k), facts + "j(X,Y,Z) :- s(X), n0(Y), n0(Z).\n", 1 + k, false},
+				{fmt.Sprintf("stratum-of-%d-then-divergence", k), "s(X) :- q0(X).\nup(Y) :- s(X), Y = fn:plus(X, 1000).\nup(Y) :- up(X), Y = fn:plus(X, 1000).\n", 3, false},
+			} {
+				for _, st := range c17Stores[:2] {
+					out = append(out, c17Case{p.diverges, c17Decls + "Decl q0(A).\n" + p.rules, p.nrule, p.name, seed, l, st, ""})
+				}
+			}
+		}
+	}
 	for _, p := range progs {
 		for _, seed := range c17Seeds {
 			for _, l := range c17Limits {
